@@ -169,8 +169,8 @@ func vFindTagged(ff FeatureSlice, tag string) (Feature, int) {
 	return out, n
 }
 
-//verif:harness prop=C02 quick=6 thorough=12 merge=concrete timeout=1500
-//verif:bounds API level: gts.Insert and gts.Embed with a host of length 0..3 and a guest of length 0..2 (symbolic residues, every insertion index incl. 0 and len(host); host residues with len==cap or in a buffer with spare capacity; followed by a second insertion of the same guest at an independent index into the same host: placed exactly again, first result unchanged); host table: source + one feature (range/point/between | 2-part join | complemented range | 2-part order, symbolic coordinates and flags); guest table: one range, point or between-site with symbolic coordinates (an empty guest carries a site)
+//verif:harness prop=C02 quick=6 thorough=12 merge=concrete timeout=1500 steps=150000000
+//verif:bounds API level: gts.Insert and gts.Embed with a host of length 0..3 and a guest of length 0..2 (symbolic residues, every insertion index incl. 0 and len(host); host residues with len==cap or in a buffer with spare capacity; followed, in shards 0..5, by a second insertion of the same guest at an independent index into the same host: placed exactly again, first result unchanged); host table: source + one feature (range/point/between | 2-part join | complemented range | 2-part order, symbolic coordinates and flags); guest table: one range, point or between-site with symbolic coordinates (an empty guest carries a site)
 func VH_C02_insert_api() {
 	sh := vShard(6 + 6*vTier())
 	embed := sh%2 == 1
@@ -288,6 +288,11 @@ func VH_C02_insert_api() {
 	vAssert("arguments-unchanged", vAnd(len(host.Bytes()) == L, len(guest.Bytes()) == G))
 	// a second insertion into the same host, elsewhere: the host is still the host (its residues were not
 	// written through by the first call), and the first result still reads as it did
+	if sh >= 6 {
+		// the second insertion is exercised by the first six shards of either tier (shards 6..11 add the empty host)
+		vObserve("outlen", len(got))
+		return
+	}
 	first := make([]int, len(got))
 	for k := range first {
 		first[k] = int(got[k])
